@@ -93,10 +93,11 @@ SetMaxR(n, path, v) ==
             \* first application left untouched (an upper bound of what Set may create: a trailing child creates its key in every object)
             [] f.f = "desc" -> LET self == SetMaxR(n, rest, v) IN
                                IF IsArr(n) /\ IsArr(self) /\ Len(self.a) = Len(n.a)
-                               THEN [self EXCEPT !.a = [j \in 1..Len(n.a) |-> IF IsCont(n.a[j]) /\ self.a[j] = n.a[j] THEN SetMaxR(n.a[j], path, v) ELSE self.a[j]]]
+                               THEN [self EXCEPT !.a = [j \in 1..Len(n.a) |-> IF IsCont(n.a[j]) /\ IsCont(self.a[j]) /\ (self.a[j] # v \/ n.a[j] = v)
+                                                                              THEN SetMaxR(self.a[j], path, v) ELSE self.a[j]]]
                                ELSE IF IsObj(n) /\ IsObj(self)
                                THEN [self EXCEPT !.o = [j \in 1..Len(self.k) |->
-                                        IF HasKey(n, self.k[j]) /\ IsCont(Member(n, self.k[j])) /\ self.o[j] = Member(n, self.k[j])
+                                        IF HasKey(n, self.k[j]) /\ IsCont(Member(n, self.k[j])) /\ IsCont(self.o[j]) /\ (self.o[j] # v \/ Member(n, self.k[j]) = v)
                                         THEN SetMaxR(self.o[j], path, v) ELSE self.o[j]]]
                                ELSE self
             [] f.f = "union" -> LET RECURSIVE U(_, _)
@@ -164,6 +165,24 @@ IsOne(m) == m.op \in {"SetOne", "DelOne", "RemoveOne", "ModifyOne"}
 OneCands(doc, m, mx) == Sel(doc, m) \o SelectSeq(LocsOnly(Dedup(Locs(m.path, mx))), LAMBDA l : ~Exists(doc, l))
 AllowedOk(doc, m, after) ==
   IF m.op = "Set" THEN OkAll(doc, m, Sel(doc, m), after) /\ Sub(after, SetMax(doc, m.path, m.v))
+  ELSE IF m.op = "SetOne" /\ HasDesc(m.path) THEN
+    \* SetOne through a descent = SetOne of the rest of the path at the start node or at any container below it (which one is
+    \* not prescribed, and creation is judged node by node), or no change when that is possible nowhere
+    LET di == CHOOSE i \in 1..Len(m.path) : m.path[i].f = "desc"
+        pre == SubSeq(m.path, 1, di - 1)
+        rest == <<[f |-> "root"]>> \o SubSeq(m.path, di + 1, Len(m.path))
+        starts == LocsOnly(Dedup(Locs(pre, doc)))
+        \* (bound: the same judgement, one level down; rest has no descent, so this does not recurse further)
+        okAt(l) == Exists(after, l) /\ DocEq(after, PutAt(doc, l, At(after, l)))
+                   /\ LET sub == At(doc, l)
+                           mx == SetMax(sub, rest, m.v)
+                           cand == OneCands(sub, [m EXCEPT !.path = rest], mx) IN
+                       cand # <<>> /\ \E q \in 1..Len(cand) : OkAll(sub, [m EXCEPT !.path = rest], <<cand[q]>>, At(after, l))
+                                                                /\ Sub(At(after, l), Graft(sub, cand[q], mx))
+        hasCand(l) == LET sub == At(doc, l) IN OneCands(sub, [m EXCEPT !.path = rest], SetMax(sub, rest, m.v)) # <<>>
+        anyNode(P(_)) == \E a \in 1..Len(starts) : LET ds == DescNodes(At(doc, starts[a]), starts[a]) IN
+                                                     \E d \in 1..Len(ds) : IsCont(ds[d].n) /\ P(ds[d].loc)
+    IN anyNode(okAt) \/ (DocEq(after, doc) /\ ~anyNode(hasCand))
   ELSE IF m.op = "SetOne" THEN
     LET mx == SetMax(doc, m.path, m.v)
         cand == OneCands(doc, m, mx) IN
@@ -177,7 +196,8 @@ AllowedOk(doc, m, after) ==
 \* reaches a location twice (removing "the same location" twice is not defined by the statement): anything but a panic
 \* (a descent is defined as long as no selected location lies inside another one: then the order of application cannot matter)
 NestedSel(S) == \E p, q \in 1..Len(S) : p # q /\ IsPrefix(S[p], S[q])
-Undefined(doc, m) == (HasDesc(m.path) /\ (NestedSel(Sel(doc, m)) \/ LocDup(doc, m.path)))
+\* (and Set of a container value through a descent: whether the walk continues into the value just stored is not prescribed)
+Undefined(doc, m) == (HasDesc(m.path) /\ (NestedSel(Sel(doc, m)) \/ LocDup(doc, m.path) \/ (m.op \in {"Set", "SetOne"} /\ IsCont(m.v))))
                      \/ (m.op \in {"Remove", "RemoveOne", "Del", "DelOne"} /\ LocDup(doc, m.path))
 Allowed(doc, m, out) ==
   CASE out.r = "panic" -> FALSE
